@@ -6,6 +6,10 @@ import Driver.Tree
 import Driver.Render
 import Driver.SourceMap
 import Driver.InlineOps
+import Driver.Nesting
+import Driver.ParserState
+import Driver.Refs
+import Driver.Alt
 
 def dispatch (line : String) : String :=
   match line.trimAscii.toString.splitOn " " with
@@ -16,6 +20,10 @@ def dispatch (line : String) : String :=
   | "render" :: args => Driver.Render.handle args
   | "smap" :: args => Driver.SourceMap.handle args
   | "inlineops" :: args => Driver.InlineOps.handle args
+  | "nest" :: args => Driver.Nesting.handle args
+  | "pstate" :: args => Driver.ParserState.handle args
+  | "refs" :: args => Driver.Refs.handle args
+  | "alt" :: args => Driver.Alt.handle args
   | _ => "bad-stream"
 
 partial def loop (h : IO.FS.Stream) (out : IO.FS.Stream) : IO Unit := do
